@@ -45,13 +45,13 @@ def reg(p):
 reg(Prop('C01', lambda r, i, t: pc.gen_item(r, i, t, 'C01'), pc.eval_C01, 1600, 12000, RULE_COMPUTE, ASSUME_COMPUTE,
          ['C01_run_partition', 'C01_step_adds_exactly']))
 reg(Prop('C02', lambda r, i, t: pc.gen_item(r, i, t, 'C02'), pc.eval_C02, 1600, 12000, RULE_COMPUTE, ASSUME_COMPUTE,
-         []))
+         ['C02_arity', 'C02_iteration_is_prefix_order', 'C02_parent_before_child', 'C02_temp_ids_unique', 'C02_final_ids']))
 reg(Prop('C03', lambda r, i, t: pc.gen_item(r, i, t, 'C03'), pc.eval_C03, 1600, 12000, RULE_COMPUTE, ASSUME_COMPUTE,
-         ['C03_roots_connected', 'C03_roots_closed']))
+         ['C03_all_connected', 'C03_roots_closed', 'C03_contour', 'C03_branch_own_le_sub']))
 reg(Prop('C04', lambda r, i, t: pc.gen_item(r, i, t, 'C04'), pc.eval_C04, 2000, 16000, RULE_COMPUTE, ASSUME_COMPUTE,
-         []))
+         ['C04_new_leaf', 'C04_join_one', 'C04_insignificant_iff', 'C04_branch', 'C04_one_remains', 'C04_none_remains', 'C04_unique_of_distinct', 'C04_minDelta_merge', 'C04_minNpix', 'C04_allTrue', 'C04_seeds_exact']))
 reg(Prop('C05', lambda r, i, t: pc.gen_item(r, i, t, 'C05'), pc.eval_C05, 1600, 12000, RULE_COMPUTE, ASSUME_COMPUTE,
-         []))
+         ['C05_parented_leaf_significant', 'C05_meeting_pixel', 'C05_builtin', 'C05_orphan_leaf']))
 reg(Prop('C06', lambda r, i, t: pc.gen_item_C06(r, i, t, 'C06'), pc.eval_C06, 1200, 8000, RULE_COMPUTE, ASSUME_COMPUTE,
          []))
 
@@ -59,3 +59,19 @@ HOOK_COMMITS = ['15057e9']
 LEVEL_TEXT = {}
 LEVEL_NOTE = {}
 PENDING_REASON = {}
+
+import props_history as ph  # noqa: E402
+
+RULE_HISTORY = ("histories = a seeded structured array (as for C01) computed, then 1-4 prunes with parameters at "
+                "comparison boundaries / inherited (0) / user criteria, each preceded by a random set of cache-warming "
+                "queries, the last prune repeated; non-trivial = at least one structure was removed; distinct = distinct "
+                "(array, parameters, operation list)")
+reg(Prop('C07', ph.gen_item_C07, ph.eval_C07, 1200, 8000, RULE_HISTORY, ASSUME_COMPUTE, []))
+reg(Prop('C08', ph.gen_item_C08, ph.eval_C08, 1200, 8000,
+         "pairs (compute loosely then prune strictly) vs (compute strictly) on the same seeded array; modes: min_npix only, "
+         "min_delta only, both; non-trivial = the prune removed a structure", ASSUME_COMPUTE, []))
+reg(Prop('C14', ph.gen_item_C14, ph.eval_C14, 800, 6000,
+         "histories of 2-10 operations (cache-warming queries, prunes, Newick export, save/load in both formats, plotter "
+         "construction) on a seeded computed dendrogram; after every step all observables are compared with the model "
+         "(a function of the current forest) and with a dendrogram rebuilt from links, label map and data; non-trivial = a "
+         "prune removed a structure", ASSUME_COMPUTE, []))
